@@ -371,13 +371,28 @@ func runPartA(c *xs.Ctx, r *xs.Result) {
 		}
 		start = idx + 1
 	}
-	// sessions in which a required reply did not arrive: once more, alone
+	// Sessions in which a required reply did not arrive: once more, alone, with a generous timeout. This is the deciding
+	// step for the "blocks its message loop" clause, so it is not abandoned when the exploration deadline has passed: the
+	// candidates are judged shortest session first, one confirmed violation per key is enough (further candidates with
+	// the same message codes are counted, not re-run), and the step may use up to four minutes beyond the deadline.
+	// Candidates that are still unjudged then make the run incomplete and are listed.
+	sort.SliceStable(blocked, func(i, j int) bool {
+		return len(sessionAt(c.Tier, blocked[i]).Letters) < len(sessionAt(c.Tier, blocked[j]).Letters)
+	})
+	grace := c.Deadline.Add(4 * time.Minute)
+	confirmedKey := map[string]bool{}
+	var unjudged []string
 	for _, idx := range blocked {
-		if c.Expired() {
-			r.Incomplete = true
-			break
-		}
 		s := sessionAt(c.Tier, idx)
+		key := fmt.Sprintf("C15:%s:blocked", codeNamesOf(s))
+		if confirmedKey[key] {
+			r.Count("a_blocked_same_key_as_confirmed", 1)
+			continue
+		}
+		if !c.Deadline.IsZero() && time.Now().After(grace) {
+			unjudged = append(unjudged, s.String())
+			continue
+		}
 		os.Setenv("C15_BLOCK_TIMEOUT_S", "60")
 		again := runSingle(c, s, false)
 		os.Unsetenv("C15_BLOCK_TIMEOUT_S")
@@ -392,7 +407,16 @@ func runPartA(c *xs.Ctx, r *xs.Result) {
 			continue
 		}
 		mergeSession(r, s, again.res)
-		r.Violate(fmt.Sprintf("C15:%s:blocked", codeNamesOf(s)), fmt.Sprintf("session {%s}: %s (reproduced in a second, separate run)", s.String(), again.res.Blocked), s)
+		confirmedKey[key] = true
+		r.Violate(key, fmt.Sprintf("session {%s}: %s (reproduced in a second, separate run)", s.String(), again.res.Blocked), s)
+	}
+	if len(unjudged) > 0 {
+		r.Incomplete = true
+		r.Count("a_blocked_unjudged", int64(len(unjudged)))
+		if len(unjudged) > 5 {
+			unjudged = unjudged[:5]
+		}
+		r.Note("part a: %d sessions in which a required reply did not arrive could not be re-run in time (first: %s)", len(unjudged), strings.Join(unjudged, " | "))
 	}
 }
 
